@@ -4,6 +4,8 @@ import FlacVerif.Model.Component
 import FlacVerif.Model.Encoder
 import FlacVerif.Model.Encode
 import FlacVerif.Model.RepoParser
+import FlacVerif.Model.RfcRec
+import FlacVerif.Model.EncodeStream
 import FlacVerif.Driver.Proto
 namespace FlacVerif.Drv
 open FlacVerif Proto
@@ -104,7 +106,7 @@ def streamRecord (r : Record) : List Verdict × List String := Id.run do
     return ([.diff "c01.result" "ok" impl, .diff "c02.result" "ok" impl, .diff "c03.result" "ok" impl,
              .diff "c04.result" "ok" impl, .diff "c09.result" "ok" impl, .diff "c15.result" "ok" impl], [])
   let bytes := unhex (r.get "impl_bytes")
-  match Rfc.analyze Md5.md5 bytes with
+  match Rfc.analyzeRec Md5.md5 bytes with
   | .error e =>
     -- C03 concerns only rate/channels/bps/total/md5: they are read at their fixed offsets
     let k := (bps + 7) / 8
@@ -166,6 +168,19 @@ def streamRecord (r : Record) : List Verdict × List String := Id.run do
         off := off + f.byteLen
       vs := functionalCheck cfg chans bps rate bs (parseOlog (r.get "olog")) fbs :: vs
       stats := "functional=1" :: stats
+      -- the stream-level functional model (`encodeStream`, the object of C01_stream_strict) must
+      -- reproduce the WHOLE stream byte for byte, STREAMINFO included
+      let sc : SubCfg := ⟨cfgNat cfg "uc" = 1, cfgNat cfg "uf" = 1, cfgNat cfg "ul" = 1, cfgNat cfg "fmo",
+                          cfgField cfg "sel" = "bc", cfgNat cfg "maxp"⟩
+      let stc : StereoCfg := ⟨cfgNat cfg "ls" = 1, cfgNat cfg "rs" = 1, cfgNat cfg "ms" = 1⟩
+      let whole := match encodeStream Md5.md5 sc stc bs chans bps rate (parseOlog (r.get "olog")) with
+        | some (st, []) => (match st.bits rfcCrc8 rfcCrc16 with
+            | some b => if packBytes b == bytes then "same" else "different bytes"
+            | none => "model stream not serialisable")
+        | some (_, _) => "oracle log not fully consumed"
+        | none => "model encoder fails (panic site or oracle log exhausted)"
+      for pfx in ["c01", "c02", "c03", "c04", "c09"] do
+        vs := check (pfx ++ ".functionalstream") "same" whole :: vs
     -- per frame
     for f in rep.frames do
       -- C02: the header codes the implementation chose are the ones the model's coders choose
